@@ -19,6 +19,7 @@
    "U/iter: proved for the first iteration from the real initial state and for one iteration from an arbitrary state satisfying the proved invariant (fill offset = 16 + records * record size, header intact, records already in the block = the list entries in order, nothing pending); the epilogue (last revoke block) from an arbitrary such state",
    "pointwise: ONE arbitrary record number g_rr of the block being filled and ONE arbitrary byte offset g_kd of the block stand for all",
    "j_blocksize 1024 (this unit) / 4096 (unit _4k); j_format_version 1 or 2; journal superblock arbitrary (32/64-bit records, with and without checksum tail); revoke list of up to JW_MAXLEN = 2^20 arbitrary entries",
+   "a journal without the 64BIT feature belongs to a filesystem of fewer than 2^32 blocks (do_journal_open: update_64bit_flag sets the feature whenever the filesystem has 64bit and the journal is clean; the kernel sets it at mount)",
    "buffer heads are allocated as getblk does plus 32 slack bytes that are never accessed; little-endian host; errcode_t values fit in 31 bits"
   ],
  "native": false
@@ -65,13 +66,14 @@
 #define JW_RSHIFT (g_rsz == 8 ? 3 : 2)
 #define VERIF_INV_JOURNAL_ADD_REVOKE_TO_TRANS \
 	__CPROVER_assigns(i, offset, err, curr_blk, __CPROVER_object_whole(bh), G) \
-	__CPROVER_loop_invariant(i <= revoke_len && G.nticks == i && G.sealed == 0 && G.failed == 0 && G.ntags <= i) \
+	__CPROVER_loop_invariant(i <= revoke_len && G.nticks == i && G.sealed == 0 && G.failed == 0 && G.ntags <= i && (i == 0 || G.ntags >= 1)) \
 	__CPROVER_loop_invariant(bh->b_err == 0 && bh->b_dirty == 0) \
 	__CPROVER_loop_invariant(offset == 16 + (G.ntags << JW_RSHIFT) && offset <= g_usable) \
-	__CPROVER_loop_invariant(curr_blk == G.desc_slot) \
+	__CPROVER_loop_invariant(curr_blk == G.desc_slot && G.desc_slot >= IN.trans_block && G.desc_slot <= IN.trans_block + i) \
 	__CPROVER_loop_invariant(JW_BE32(buf, 0) == JW_MAGIC && JW_BE32(buf, 4) == JW_BT_REVOKE && JW_BE32(buf, 8) == g_tid) \
 	__CPROVER_loop_invariant(!(g_rr < G.ntags) || \
 		(g_rsz == 8 ? JW_BE64(buf, 16 + (g_rr << 3)) : (unsigned long long)JW_BE32(buf, 16 + (g_rr << 2))) == revoke_list[i - G.ntags + g_rr]) \
+	__CPROVER_loop_invariant(!(g_rr < G.ntags) || revoke_list[i - G.ntags + g_rr] < IN.fs_blocks) \
 	__CPROVER_decreases(revoke_len - i)
 
 #include "debugfs/do_journal.c"
@@ -81,43 +83,47 @@
 #define JW_TICK_COUNTS_RECORD
 #include "jw_stubs.h"
 
-static void jw_on_read(struct buffer_head *bh, unsigned long long logical)
+static struct jw_ghost jw_on_read(struct jw_ghost g, struct buffer_head *bh, unsigned long long logical)
 {
 	CHECK(0, "journal_add_revoke_to_trans reads nothing from the journal");
+	return g;
 }
 
-static void jw_on_write(struct buffer_head *bh, unsigned long long logical)
+static struct jw_ghost jw_on_write(struct jw_ghost g, struct buffer_head *bh, unsigned long long logical)
 {
 	unsigned int rcount = JW_BE32(bh->b_data, 0xC);
 	unsigned long long rec;
 	CHECK(bh == JW_META_BH, "write of the revoke buffer");
-	G.n_desc++;
+	g.n_desc++;
 	CHECK(JW_BE32(bh->b_data, 0) == JW_MAGIC && JW_BE32(bh->b_data, 4) == JW_BT_REVOKE && JW_BE32(bh->b_data, 8) == g_tid,
 	      "revoke block header: magic, blocktype 5, the transaction's sequence");
-	CHECK(G.ntags >= 1 && rcount == 16 + (G.ntags << JW_RSHIFT), "r_count = 16 + records * record size (4, or 8 with 64BIT), at least one record");
+	CHECK(g.ntags >= 1 && rcount == 16 + (g.ntags << JW_RSHIFT), "r_count = 16 + records * record size (4, or 8 with 64BIT), at least one record");
 	CHECK(rcount <= g_usable, "the records end before the checksum tail");
-	if (g_rr < G.ntags) {
+	if (g_rr < g.ntags) {
 		rec = g_rsz == 8 ? JW_BE64(bh->b_data, 16 + (g_rr << 3)) : (unsigned long long)JW_BE32(bh->b_data, 16 + (g_rr << 2));
-		CHECK(G.nticks - G.ntags + g_rr < IN.len && rec == g_list[G.nticks - G.ntags + g_rr],
+		CHECK(g.nticks - g.ntags + g_rr < IN.len && rec == g_list[g.nticks - g.ntags + g_rr],
 		      "record r of the block = the list entry that was the r-th put into it (list order, big-endian, 4/8 bytes per feature)");
 		CHECK(rec < IN.fs_blocks, "a revoke record names a block of the filesystem");
 		REACH("record checked");
 	}
-	CHECK(logical == G.desc_slot, "revoke blocks are written at consecutive log positions starting at trans->block");
+	CHECK(logical == g.desc_slot, "revoke blocks are written at consecutive log positions starting at trans->block");
 	if (g_csum_on)
 		JW_CHECK_SEALED(bh);
-	G.sealed = 0;
-	if (G.ntags > 1) REACH("several records");
-	G.desc_slot++;
-	G.ntags = 0;
+	g.sealed = 0;
+	if (g.ntags > 1) REACH("several records");
+	g.desc_slot++;
+	g.ntags = 0;
+	return g;
 }
 
 void h_add_revoke(void)
 {
 	jw_build();
 	ASSUME(IN.len <= JW_MAXLEN);
-	g_list = malloc(JW_MAXLEN * sizeof(blk64_t));	/* arbitrary content */
+	g_list = malloc((IN.len + 1) * sizeof(blk64_t));	/* arbitrary content; symbolic size: the verifier must not flatten it */
 	ASSUME(g_list != 0);
+	/* 32-bit records can only name blocks of a filesystem below 2^32 blocks (see assumes) */
+	ASSUME(g_64 || IN.fs_blocks <= (1ull << 32));
 	G.desc_slot = IN.trans_block;
 	g_trans.flags = IN.flags;
 	g_trans.magic = IN.misc ? J_TRANS_MAGIC : 0;
